@@ -129,6 +129,20 @@ var Imports = []Import{
 	{`use function X\a, X\b as foo;`, func(s *Scope) { s.Fn["a"] = `X\a`; s.Fn["foo"] = `X\b` }, false},
 }
 
+// ImportVariants: keywords are case-insensitive; a leading backslash in a function / constant import
+var ImportVariants = []Import{
+	{`use FUNCTION X\foo;`, func(s *Scope) { s.Fn["foo"] = `X\foo` }, false},
+	{`USE Function X\y AS Foo;`, func(s *Scope) { s.Fn["foo"] = `X\y` }, false},
+	{`use CONST X\Foo;`, func(s *Scope) { s.Const["Foo"] = `X\Foo` }, false},
+	{`Use Const X\Y As foo;`, func(s *Scope) { s.Const["foo"] = `X\Y` }, false},
+	{`use function \X\foo;`, func(s *Scope) { s.Fn["foo"] = `X\foo` }, false},
+	{`use const \X\Foo;`, func(s *Scope) { s.Const["Foo"] = `X\Foo` }, false},
+	{`use FUNCTION X\{foo, z AS w};`, func(s *Scope) { s.Fn["foo"] = `X\foo`; s.Fn["w"] = `X\z` }, true},
+	{`use Const X\{Foo, Y as Bar};`, func(s *Scope) { s.Const["Foo"] = `X\Foo`; s.Const["Bar"] = `X\Y` }, true},
+	{`use X\{FUNCTION foo, CONST Foo, Foo};`, func(s *Scope) { s.Fn["foo"] = `X\foo`; s.Const["Foo"] = `X\Foo`; s.Class["foo"] = `X\Foo` }, true},
+	{`use CONST X\A, X\B as Foo;`, func(s *Scope) { s.Const["A"] = `X\A`; s.Const["Foo"] = `X\B` }, false},
+}
+
 type Position struct {
 	Name string
 	Kind string
